@@ -108,7 +108,7 @@ def run(ctx):
     # ---------------- R03.4 loop progress
     dec = prog.fn1(MB + 'decode')
     ctx.saw(dec)
-    loops = [n for n in dec.all_nodes() if n.k == 'ForStmt' and any(x.callee_q == ee.q for x in q.calls_in(n.child('cond')) if n.child('cond') is not None)]
+    loops = [n for n in dec.all_nodes() if n.k in ('ForStmt', 'WhileStmt') and n.child('cond') is not None and any(x.callee_q == ee.q for x in q.calls_in(n.child('cond')))]
     ctx.need(len(loops) == 1, 'decode(): field loop not found')
     p = q.loop_stagnant_cycle(dec, loops[0], dec.param_ids[1])
     ctx.check(p is None, 'R03.4', MB + 'decode#field-loop.progress', loops[0].loc, 'every cycle of the field loop advances the offset',
@@ -116,11 +116,15 @@ def run(ctx):
     dg = prog.fn1(MB + 'decode_group')
     ctx.saw(dg)
     so = dg.param_ids[3]
-    floops = [n for n in dg.all_nodes() if n.k == 'ForStmt']
+    floops = [n for n in dg.all_nodes() if n.k in ('ForStmt', 'WhileStmt')]
     ctx.need(len(floops) == 2, 'decode_group(): expected two nested loops')
-    outer = [l for l in floops if any(x is not l and x in list(l.walk()) for x in floops)][0]
-    inner = [l for l in floops if l is not outer][0]
-    okflag = [d for d, _ in (outer.child('init').r['decls'] if outer.child('init') is not None and outer.child('init').k == 'DeclStmt' else [])]
+    outers = [l for l in floops if any(x != l and x in list(l.walk()) for x in floops)]
+    ctx.need(len(outers) == 1, 'decode_group(): the two loops are not nested')
+    outer = outers[0]
+    inner = [l for l in floops if l != outer][0]
+    # the continue-flag: a bool local the group loop's condition requires to be true (declared in the for-init or before a while)
+    okflag = [x.declid for x in outer.child('cond').walk() if x.k == 'DeclRefExpr' and x.decl is not None and x.decl.get('sc') == 'local' and
+              dg.tu.types[x.decl['t']]['k'] == 'bool'] if outer.child('cond') is not None else []
     p = q.loop_stagnant_cycle(dg, inner, so)
     ctx.check(p is None, 'R03.4', MB + 'decode_group#inner-loop.progress', inner.loc, 'every cycle of the element loop advances the offset')
     p = q.loop_stagnant_cycle(dg, outer, so, flags=okflag)
